@@ -219,15 +219,17 @@ class StoreLib(LibBase):
         Qp, Rp, Qg, Rg, Re, It = f[QP], f[RP], f[QG], f[RG], f[RE], f[ITEMS]
         cap = f["capacity"]
         # I-cap
-        out.append(("I-cap", cap_le(Rp.len + held(st, p), cap), ("C01", "C12") if p["belt"] else ("C01",)))
+        out.append(("I-cap", cap_le(Rp.len + held(st, p), cap), ("C01", "C12", "C20") if p["belt"] else ("C01", "C20")))
         # I-sync
-        out.append(("I-sync.len", Re.len == Rg.len, ("C02",)))
-        out.append(("I-sync", V.forall_idx(Re, lambda i, e: e.t == Rg.at(i).t, "I-sync"), ("C02",)))
+        # (C20: the implicit-exception obligations of the helpers are discharged under these clauses, so keeping them is
+        #  part of the no-crash proof: a desynchronised pair of lists shows up as an IndexError two calls later)
+        out.append(("I-sync.len", Re.len == Rg.len, ("C02", "C20")))
+        out.append(("I-sync", V.forall_idx(Re, lambda i, e: e.t == Rg.at(i).t, "I-sync"), ("C02", "C20")))
         # I-bind
-        out.append(("I-bind.count", Rg.len <= avail(st, p), ("C02",)))
+        out.append(("I-bind.count", Rg.len <= avail(st, p), ("C02", "C20")))
         if p["ready"]:
             Rd, Ri = f[RD], f[RI]
-            out.append(("I-bind.len", Ri.len == Re.len, ("C02",)))
+            out.append(("I-bind.len", Ri.len == Re.len, ("C02", "C20")))
             itobj = (lambda x: x.items[0]) if p["tuple"] else (lambda x: x)
             if assume:
                 grd = z3.Function("inv_%s!%s" % (RD, _ctr()), z3.IntSort(), z3.IntSort())
@@ -260,10 +262,10 @@ class StoreLib(LibBase):
             out.append(("I-bind.fifo", V.forall_idx(Ri, lambda i, x: z3.Implies(
                 fifo, z3.And(i < Rd.len, x.t == Rd.at(i).t)), "bind.fifo"), ("C06", "C12") if p["belt"] else ("C06",)))
         # I-trig
-        out.append(("I-trig.Qp", V.forall_idx(Qp, lambda i, e: z3.Not(trig(st, e.t)), "I-trig.Qp"), ("C04", "C07")))
-        out.append(("I-trig.Rp", V.forall_idx(Rp, lambda i, e: trig(st, e.t), "I-trig.Rp"), ("C04", "C07")))
-        out.append(("I-trig.Qg", V.forall_idx(Qg, lambda i, e: z3.Not(trig(st, e.t)), "I-trig.Qg"), ("C04", "C07")))
-        out.append(("I-trig.Rg", V.forall_idx(Rg, lambda i, e: trig(st, e.t), "I-trig.Rg"), ("C04", "C07")))
+        out.append(("I-trig.Qp", V.forall_idx(Qp, lambda i, e: z3.Not(trig(st, e.t)), "I-trig.Qp"), ("C04", "C07", "C20")))
+        out.append(("I-trig.Rp", V.forall_idx(Rp, lambda i, e: trig(st, e.t), "I-trig.Rp"), ("C04", "C07", "C20")))
+        out.append(("I-trig.Qg", V.forall_idx(Qg, lambda i, e: z3.Not(trig(st, e.t)), "I-trig.Qg"), ("C04", "C07", "C20")))
+        out.append(("I-trig.Rg", V.forall_idx(Rg, lambda i, e: trig(st, e.t), "I-trig.Rg"), ("C04", "C07", "C20")))
         # I-fresh: all events known to the store are allocated
         for nm in EVENT_LISTS:
             out.append(("I-fresh." + nm, V.forall_idx(f[nm], lambda i, e: z3.And(e.t >= 0, e.t < st.next_id),
@@ -586,7 +588,8 @@ class StoreLib(LibBase):
                     Def(R, V.ite(g, V.list_append(o.f[R], e), o.f[R]), ("C04", "C05")),
                 ]
                 if p["prio"]:
-                    pos = c.ghost("pos", lambda: n.ghost["sort_pos"][-1])
+                    # witness: where the sort put the new request; without a sort call it stayed at the end
+                    pos = c.ghost("pos", lambda: n.ghost["sort_pos"][-1] if n.ghost.get("sort_pos") else o.f[Q].len)
                     pr = c.args["priority"]
                     items.append(Clause("priority-recorded",
                                         lambda c: z3.Select(n.heap_arr(prattr), e.t) == _real(pr), ("C05",)))
@@ -1239,7 +1242,7 @@ class StoreLib(LibBase):
                 o, n_ = c.old, c.new
                 e = VObj(o.next_id, "event")
                 pr = c.args["priority"]
-                pos = c.ghost("pos", lambda: n_.ghost["sort_pos"][-1])
+                pos = c.ghost("pos", lambda: n_.ghost["sort_pos"][-1] if n_.ghost.get("sort_pos") else o.f[QG].len)
                 oq = o.f[QG]
                 q1 = V.list_insert(oq, pos, e)
                 mid = o.fork()
@@ -2194,5 +2197,15 @@ def _dumper(m):
             return None if z3.is_true(m.eval(v.isnone, model_completion=True)) else val(v.val)
         if isinstance(v, VNone):
             return None
+        if isinstance(v, V.VDyn):
+            tag = ev(v.tag)
+            names = {0: "none", 1: "int", 2: "float", 3: "str", 4: "callable", 5: "generator", 6: "object", 7: "bool"}
+            d = {"dyn": names.get(tag, tag)}
+            if tag in (1, 2, 7):
+                d["num"] = ev(v.num)
+            if tag == 3:
+                c = ev(v.s)
+                d["str"] = V.str_of_code(c) if isinstance(c, int) else c
+            return d
         return repr(v)
     return val
